@@ -58,6 +58,34 @@ def accStep (st : Last × List Acc) : Rec → Last × List Acc
 
 def accepted (rs : List Rec) : List Acc := (rs.foldl accStep ([], [])).2
 
+/-- Per thread incarnation (cut at EXIT / EXEC like `accStep`), the timestamps of the accepted samples never
+decrease. True of every perf.data file that keeps perf's round contract (the reader delivers records in time
+order). It is the hypothesis under which a conversion without context-switch records performs no failing `u64`
+subtraction: `handle_main_event_sample` calls `ContextSwitchHandler::handle_on_cpu_sample` for *every* sample
+(converter.rs:283-285), which computes `timestamp - last_observed_on_timestamp` (shared/context_switch.rs:147) —
+a panic in debug builds for a back-dated sample (`C01_backdated_sample_panics`). -/
+def samplesMonotone (rs : List Rec) : Bool :=
+  (rs.foldl (fun (st : Last × Bool) r =>
+    let ok := match r with
+      | .sample pid tid t _ _ _ _ =>
+        if tid = 0 then true else
+        match lastGet st.1 pid tid with
+        | some t0 => decide (t0 ≤ t)
+        | none => true
+      | _ => true
+    ((accStep (st.1, []) r).1, st.2 && ok)) ([], true)).2
+
+/-- does the history contain any context-switch related record? -/
+def hasCsRec (rs : List Rec) : Bool :=
+  rs.any (fun r => match r with | .switchIn .. | .switchOut .. | .sched .. => true | _ => false)
+
+/-- the verdict of every converter judge on a conversion that panicked: outside the statements' quantifier
+(and expected) exactly when a thread's sample times decrease -/
+def panicVerdict (rs : List Rec) : Bool × String :=
+  if !hasCsRec rs && !samplesMonotone rs then
+    (true, "not-applicable: a thread's sample timestamps decrease (the file breaks perf's round contract); the debug build panics at shared/context_switch.rs:147")
+  else (false, "conversion failed: [panic]")
+
 /-! ## C12 / C01 at converter level: what the bare record history says about cpu deltas and off-CPU samples
 
 Declarative reading, per thread incarnation (same cut points as `accStep`: EXIT, EXEC), in terms of *cumulative
